@@ -63,8 +63,11 @@ var (
 // trouble and carries on after the seed. Runs are fake-clock simulations; one
 // that needs a minute of CPU has degenerated (e.g. a relay storm between
 // simulated nodes) and would otherwise hold its worker until the batch budget.
-func startRunWatchdog() {
-	limit := envInt("VERIF_RUN_TIMEOUT", 60)
+func startRunWatchdog(def int) {
+	if def <= 0 {
+		def = 60
+	}
+	limit := envInt("VERIF_RUN_TIMEOUT", int64(def))
 	go func() {
 		for {
 			time.Sleep(time.Second)
@@ -137,7 +140,7 @@ func TestWorker(t *testing.T) {
 		out.Flush()
 	}
 	verbose := os.Getenv("VERIF_VERBOSE") == "1"
-	startRunWatchdog()
+	startRunWatchdog(p.RunTimeout)
 
 	if rf := os.Getenv("VERIF_REPLAY"); rf != "" {
 		data, err := os.ReadFile(rf)
